@@ -35,7 +35,31 @@ def run(ctx):
         rp = vlib.replay_path("C12", v["kind"])
         open(rp, "w").write(json.dumps(v) + "\n")
         violations.append({"key": v["kind"], "what": v["what"], "replay": rp})
-    cov = {"states": r.distinct, "transitions": r.generated, "traces_validated_against_impl": 1,
+    # --- stored state: for every reachable member state (application traffic with reordering, retained message keys,
+    # prior epochs, pending commits, cached proposals) the announced size of each stored part equals its encoded size
+    stored = None
+    if not ctx.get("replay"):
+        from corecheck import gen_behaviours
+        import re as _re
+        beh = os.path.join(wd, f"stored-{tier}-{seed}.ndjson")
+        parts = []
+        for c in ("SIM_ratchet", "SIM_storage"):
+            depth = int(_re.search(r"Depth = (\d+)", open(os.path.join(vlib.SPEC, c + ".cfg")).read()).group(1))
+            part = os.path.join(wd, f"stored-{c}-{tier}-{seed}.ndjson")
+            gen_behaviours(c, "MC_core", part, 7, 6 if tier == "quick" else 150, depth, seed, timeout=1500)
+            parts.append(part)
+        with open(beh, "w") as f:
+            for part in parts: f.write(open(part).read())
+        rc, out, err = vlib.harness(["replay", "--in", beh, "--seed", seed, "--threads", 14, "--out-dir", os.path.join(vlib.WORK, "replay", "C12")], timeout=3000)
+        s1 = vlib.last_json(out)
+        stored = {"behaviours": s1["behaviours"], "steps": s1["steps"], "encoded_len_checks": s1["stats"].get("encoded_len_checks", 0),
+                  "out_of_order_deliveries": s1["stats"].get("DeliverApp:ok", 0)}
+        if stored["encoded_len_checks"] == 0:
+            raise vlib.ToolError("vacuous: no stored-state size was checked")
+        for v in s1["violations"]:
+            if v["kind"] in ("encoded-len", "panic") or "Serialization" in v["what"]:
+                violations.append({"key": v["kind"], "what": v["what"], "replay": v.get("replay")})
+    cov = {"stored_state_sizes": stored, "states": r.distinct, "transitions": r.generated, "traces_validated_against_impl": 1,
            "evaluations": summ["prim_rows"] + summ["inputs_probed"], "distinct_nontrivial": rows,
            "rule": "(1) every byte string of length <= 3 (thorough 4) over the boundary alphabet {00,01,02,3f,40,41,7f,80,bf,c0,ff} is decoded with the implementation's VarInt, u16, u32, opaque<V>, Vec<u16>, Option<u8> decoders and TLC compares value and bytes consumed with the reference decoders of Codec.tla; (2) length headers written for boundary values are compared with EncVarInt; (3) authentic MLSMessages of every kind (public and private handshake, application, welcome, group info, key package) and their mutants (all truncations and boundary values in the framing region, non-minimal length prefix, trailing byte, random flips/swaps) plus random strings are decoded under catch_unwind with a counting allocator: no panic, bounded allocation, re-encoding equals consumed bytes, mls_encoded_len equals written length; TLC compares accept/reject with the complete PrivateMessage / Welcome schemas of WireSchema.tla. distinct_nontrivial = rows validated by TLC.",
            "samples": summ.get("samples", [])[:2] or ["see replay"], "exhaustive": False,
